@@ -31,74 +31,81 @@ Section Encoder.
   Variable reset_dc : wstate -> wstate.                            (* last_dc_val[ci] = 0 *)
   Variable strict : bool.
 
-  (* dump_buffer: the oracle entry is consumed in both cases *)
-  Definition dump (d : dest) (orc : list bool) : option dest * list bool :=
+  (* What the destination looks like after a refusal (return FALSE all the way up): the sink keeps
+     everything that was accepted, the buffer is valid up to the manager's next_output_byte only;
+     the bytes beyond it will be regenerated. *)
+  Definition rolled_back (d : dest) : dest :=
+    {| cap := cap d; wbuf := firstn (pub_pos d) (wbuf d); wsink := wsink d; pub_pos := pub_pos d |}.
+
+  (* dump_buffer: inl = emptied (TRUE), inr = refused (FALSE); the oracle entry is consumed in both cases *)
+  Definition dump (d : dest) (orc : list bool) : (dest + dest) * list bool :=
     let want_refuse := hd false orc in
-    if want_refuse && (negb strict || negb (Nat.eqb (pub_pos d) 0)) then (None, tl orc)       (* return FALSE *)
-    else (Some {| cap := cap d; wbuf := []; wsink := wsink d ++ wbuf d; pub_pos := 0 |}, tl orc).
+    if want_refuse && (negb strict || negb (Nat.eqb (pub_pos d) 0)) then (inr (rolled_back d), tl orc)
+    else (inl {| cap := cap d; wbuf := []; wsink := wsink d ++ wbuf d; pub_pos := 0 |}, tl orc).
 
   (* emit_byte / the copy loop of STORE_BUFFER: dump whenever free_in_buffer reaches 0 *)
-  Fixpoint put (bs : list byte) (d : dest) (orc : list bool) : option dest * list bool :=
+  Fixpoint put (bs : list byte) (d : dest) (orc : list bool) : (dest + dest) * list bool :=
     match bs with
-    | [] => (Some d, orc)
+    | [] => (inl d, orc)
     | b :: bs' =>
         let d1 := {| cap := cap d; wbuf := wbuf d ++ [b]; wsink := wsink d; pub_pos := pub_pos d |} in
         if Nat.eqb (length (wbuf d1)) (cap d) then
           match dump d1 orc with
-          | (Some d2, orc') => put bs' d2 orc'
-          | (None, orc') => (None, orc')
+          | (inl d2, orc') => put bs' d2 orc'
+          | (inr ds, orc') => (inr ds, orc')
           end
         else put bs' d1 orc
     end.
 
   (* LOAD_BUFFER / STORE_BUFFER: direct write when >= BUFSIZE bytes are free, else local buffer + copy loop *)
-  Definition store (bs : list byte) (d : dest) (orc : list bool) : option dest * list bool :=
+  Definition store (bs : list byte) (d : dest) (orc : list bool) : (dest + dest) * list bool :=
     if Nat.leb BUFSIZE (cap d - length (wbuf d)) then
-      (Some {| cap := cap d; wbuf := wbuf d ++ bs; wsink := wsink d; pub_pos := pub_pos d |}, orc)
+      (inl {| cap := cap d; wbuf := wbuf d ++ bs; wsink := wsink d; pub_pos := pub_pos d |}, orc)
     else put bs d orc.
 
   Record estate := { saved : wstate; restarts_to_go : nat; next_restart_num : Z }.
 
   Fixpoint encode_blocks (bl : list block) (cur : wstate) (d : dest) (orc : list bool)
-    : option (wstate * dest) * list bool :=
+    : ((wstate * dest) + dest) * list bool :=
     match bl with
-    | [] => (Some (cur, d), orc)
+    | [] => (inl (cur, d), orc)
     | b :: bl' =>
         let (bs, cur') := encode_block cur b in
         match store bs d orc with
-        | (Some d', orc') => encode_blocks bl' cur' d' orc'
-        | (None, orc') => (None, orc')
+        | (inl d', orc') => encode_blocks bl' cur' d' orc'
+        | (inr ds, orc') => (inr ds, orc')
         end
     end.
 
   (* emit_restart *)
-  Definition emit_restart (cur : wstate) (num : Z) (d : dest) (orc : list bool) : option (wstate * dest) * list bool :=
+  Definition emit_restart (cur : wstate) (num : Z) (d : dest) (orc : list bool)
+    : ((wstate * dest) + dest) * list bool :=
     let (fb, cur1) := flush_bits cur in
     match store fb d orc with
-    | (None, o1) => (None, o1)
-    | (Some d1, o1) =>
+    | (inr ds, o1) => (inr ds, o1)
+    | (inl d1, o1) =>
       match put [255%Z] d1 o1 with
-      | (None, o2) => (None, o2)
-      | (Some d2, o2) =>
+      | (inr ds, o2) => (inr ds, o2)
+      | (inl d2, o2) =>
         match put [(208 + num)%Z] d2 o2 with
-        | (None, o3) => (None, o3)
-        | (Some d3, o3) => (Some (reset_dc cur1, d3), o3)
+        | (inr ds, o3) => (inr ds, o3)
+        | (inl d3, o3) => (inl (reset_dc cur1, d3), o3)
         end
       end
     end.
 
-  (* encode_mcu_huff: None = return FALSE (nothing committed; the oracle has been consulted) *)
+  (* encode_mcu_huff: inr = return FALSE: entropy state not committed, destination as left by the manager *)
   Definition encode_mcu (ri : nat) (e : estate) (m : list block) (d : dest) (orc : list bool)
-    : option (estate * dest) * list bool :=
+    : ((estate * dest) + dest) * list bool :=
     let r1 := if negb (Nat.eqb ri 0) && Nat.eqb (restarts_to_go e) 0
               then emit_restart (saved e) (next_restart_num e) d orc
-              else (Some (saved e, d), orc) in
+              else (inl (saved e, d), orc) in
     match r1 with
-    | (None, o1) => (None, o1)
-    | (Some (cur, d1), o1) =>
+    | (inr ds, o1) => (inr ds, o1)
+    | (inl (cur, d1), o1) =>
       match encode_blocks m cur d1 o1 with
-      | (None, o2) => (None, o2)
-      | (Some (cur', d2), o2) =>
+      | (inr ds, o2) => (inr ds, o2)
+      | (inl (cur', d2), o2) =>
           (* commit: dest pointers, entropy->saved, restart counters *)
           let d3 := {| cap := cap d2; wbuf := wbuf d2; wsink := wsink d2; pub_pos := length (wbuf d2) |} in
           let e' :=
@@ -106,7 +113,7 @@ Section Encoder.
             else if Nat.eqb (restarts_to_go e) 0
                  then {| saved := cur'; restarts_to_go := ri - 1; next_restart_num := Z.land (next_restart_num e + 1) 7 |}
                  else {| saved := cur'; restarts_to_go := restarts_to_go e - 1; next_restart_num := next_restart_num e |} in
-          (Some (e', d3), o2)
+          (inl (e', d3), o2)
       end
     end.
 
@@ -123,11 +130,11 @@ Section Encoder.
     | m :: ms' =>
         let d0 := if hd false vol then app_flush d else d in
         match encode_mcu ri e m d0 orc with
-        | (Some (e', d'), o') => encode_all ri ms' e' d' o' (tl vol)
-        | (None, o') =>
-            match encode_mcu ri e m (app_flush d0) o' with
-            | (Some (e', d'), o'') => encode_all ri ms' e' d' o'' (tl vol)
-            | (None, _) => EStuck
+        | (inl (e', d'), o') => encode_all ri ms' e' d' o' (tl vol)
+        | (inr ds, o') =>
+            match encode_mcu ri e m (app_flush ds) o' with
+            | (inl (e', d'), o'') => encode_all ri ms' e' d' o'' (tl vol)
+            | (inr _, _) => EStuck
             end
         end
     end.
